@@ -769,7 +769,10 @@ theorem appendBatch_rinv (es : List (LogId × Bytes)) :
           (fun e he => hsm e (List.mem_cons_of_mem _ he))
           (fun e he => hwf e (List.mem_cons_of_mem _ he))
       refine ⟨seg2, s2, e1 ++ e2, ?_, by rw [← List.append_assoc]; exact h2⟩
-      unfold Store.appendBatch
+      have hidxD12 : id.index + 1 ≠ U64 := by
+        have : id.index + 1 < U64 := hsm (id, p) List.mem_cons_self
+        omega
+      rw [appendBatch_cons_small_D12 _ _ _ _ _ _ _ hidxD12]
       rw [heq1]
       simp only
       rw [heq2, List.append_assoc]
@@ -835,7 +838,10 @@ theorem call_rinv {s : Store} {fs : Fs} {w : Worker} {r r' : RefLog} (fsHas : Na
         (by simpa [effFs, effQ] using h) hfs hc hsm hwf
     exact ⟨seg', s', effs', by simpa using heq, by simpa using h'⟩
   | purge upto =>
-    simp only [Store.call]
+    have hidxD12 : upto.index + 1 ≠ U64 := by
+      have : upto.index + 1 < U64 := hsm
+      omega
+    simp only [Store.call, if_neg hidxD12]
     rw [nextIndexChecked_eq h.ref.pf.purged]
     simp only [hpu]
     simp only [RefLog.call] at hc
